@@ -230,6 +230,9 @@ theorem TL_G_ops (s : St) (op : Op) (s' : St) (r : String) (hW : WF s) (hI : TL 
       split at h
       · simp only [Option.some.injEq, Prod.mk.injEq] at h; obtain ⟨rfl, _⟩ := h; exact hI
       split at h
+      · -- refused: functor-owned source / destination
+        simp only [Option.some.injEq, Prod.mk.injEq] at h; obtain ⟨rfl, _⟩ := h; exact hI
+      split at h
       · -- accumulated: copy assignment
         repeat' split at h
         all_goals (simp only [Option.some.injEq, Prod.mk.injEq] at h; obtain ⟨rfl, _⟩ := h)
@@ -259,6 +262,8 @@ theorem TL_G_ops (s : St) (op : Op) (s' : St) (r : String) (hW : WF s) (hI : TL 
     split at h
     · simp only [Option.some.injEq, Prod.mk.injEq] at h; obtain ⟨rfl, _⟩ := h; exact hI
     rename_i hd hi
+    split at h
+    · simp only [Option.some.injEq, Prod.mk.injEq] at h; obtain ⟨rfl, _⟩ := h; exact hI
     split at h
     · simp only [Option.some.injEq, Prod.mk.injEq] at h; obtain ⟨rfl, _⟩ := h; exact hI
     simp only [Option.some.injEq, Prod.mk.injEq] at h; obtain ⟨rfl, _⟩ := h
@@ -403,7 +408,11 @@ theorem TL_collectStep (s s' : St) (hW : WF s) (hI : TL s) (h : collectStep s = 
       split
       · exact TL.prims.disconnectCell _ hI
       · exact hI
-    · cases h
+    · split at h
+      · rename_i k g _
+        simp only [Option.some.injEq] at h; subst h
+        exact TL_forceDelG { s with ownedG := s.ownedG.filter (fun q => q.1 ≠ k) } g hW hI
+      · cases h
 
 theorem WF_collectStep (s s' : St) (hW : WF s) (h : collectStep s = some s') : WF s' := by
   unfold collectStep at h
@@ -415,7 +424,11 @@ theorem WF_collectStep (s s' : St) (hW : WF s) (h : collectStep s = some s') : W
       split
       · exact WF.prims.disconnectCell _ hW
       · exact hW
-    · cases h
+    · split at h
+      · rename_i k g _
+        simp only [Option.some.injEq] at h; subst h
+        exact WF_forceDelG { s with ownedG := s.ownedG.filter (fun q => q.1 ≠ k) } g hW
+      · cases h
 
 /-- `TL` (together with `WF`) is preserved by `collect` -/
 theorem TL_collect (s : St) (hW : WF s) (hI : TL s) : TL (collect s) :=
